@@ -186,3 +186,25 @@ def t_raise_argument_effects():
     except MyErr:
         log.append("caught")
     return log
+
+
+class _Src:
+    def __init__(self):
+        self.pos = 0
+
+    def take(self):
+        self.pos += 1
+        return self
+
+    @property
+    def items(self):
+        return iter([self.pos])
+
+
+def t_receiver_once_when_attribute_is_not_callable():
+    s = _Src()
+    try:
+        s.take().items()
+    except TypeError:
+        pass
+    return s.pos
